@@ -120,7 +120,7 @@ def build_universe(prog, ctx: Ctx | None = None):
 
 def _filters_are_non_next(prog):
     fr = prog.frame(f"{UTIL}.get_function_info")
-    for s in walk(fr.env.get("info", ())):
+    for s in (x for t in frame_terms(fr) for x in walk(t)):
         if s[0] == "setitem" and s[2] == ("const", "is_next"):
             txt = show(s[3])
             return "~" in txt and "is_filter" in txt and "&" in txt
@@ -336,7 +336,12 @@ def qa_order(ctx: Ctx):
     prog = ctx.prog
     uni = build_universe(prog)
     fr = prog.frame(f"{UTIL}.get_variable_info")
-    order = need(fr.env.get("order"), "get_variable_info: no variable 'order'")
+    order = None
+    for s_ in walk(fr.ret):
+        if s_[0] == "sub" and s_[1][0] == "attr" and s_[1][2] == "loc":
+            order = s_[2]
+            break  # outermost .loc[...] of the returned value
+    need(order, "get_variable_info does not return table.loc[<order>]")
     qs = []
 
     def flatten(t):
@@ -610,8 +615,17 @@ def qa_stochastic_sets(ctx: Ctx):
     uni = build_universe(prog)
     q = "lcm.input_processing.create_params_template._create_stochastic_transition_params"
     fr = prog.frame(q)
-    dsv = fr.env.get("discrete_state_vars")
-    vv = fr.env.get("valid_vars")
+    dsv = vv = None
+    for conds, _e, _n in fr.raises:
+        for c in conds:
+            if c[0] == "binop" and c[1] == "-" and selections(c[3]) and dsv is None:
+                dsv = c[3]
+    for lp in [l for lid, l in prog.loops.items() if l.func == q and "@" not in lid]:
+        for v in lp.next.values():
+            for s_ in walk(v):
+                if s_[0] == "binop" and s_[1] == "-" and callee_name(s_[2]) == "builtins.set" and vv is None \
+                        and any(callee_name(x) == "inspect.signature" for x in walk(s_[2])):
+                    vv = s_[3]
     need(dsv is not None and vv is not None, "validation sets not found")
     f1, _ = effective_formula(selections(dsv)[0], {})
     ok1 = uni.select(f1) == uni.select(parse("is_state & is_discrete"))
